@@ -177,6 +177,18 @@ class SeqPlugin(Plugin):
                 def rl(I_, f):
                     return f.fields["lines"].items.pop(0) if f.fields["lines"].items else ""
                 return PBuiltin("readline", rl, obj)
+            if name == "read":
+                def rd(I_, f):
+                    # the whole remaining text; its exact content is only available when every chunk is a plain str
+                    items = f.fields["lines"].items
+                    if all(isinstance(x, str) for x in items):
+                        return "".join(items)
+                    from .interp import FStr
+
+                    return FStr(list(items))
+                return PBuiltin("read", rd, obj)
+            if name == "close":
+                return PBuiltin("close", lambda I_, f: None, obj)
         return NotImplemented
 
     def iterate(self, I, it, node):
